@@ -3,7 +3,7 @@
  *   requires  stream invariant, no pending exception
  *   assigns   the five base header fields, the stream's read state, vb_exc
  *   ensures   vb_exc == 0  or  (library exception and eof set);   good and no exception ==> signature == LOBJ;
- *             old(tellg) <= tellg <= declared end */
+ *             old(tellg) <= tellg <= declared end;   not good ==> tellg == declared end */
 #ifndef OHB_READ_STUB_H
 #define OHB_READ_STUB_H
 void ObjectHeaderBase_read(struct ObjectHeaderBase *self, struct AbstractFile *is)
@@ -17,5 +17,7 @@ void ObjectHeaderBase_read(struct ObjectHeaderBase *self, struct AbstractFile *i
     __CPROVER_assume(vb_exc == 0 || (vb_exc == VB_EXC_BLF && (is->rdstate & IOS_eofbit) != 0));
     __CPROVER_assume(!(vb_exc == 0 && is->rdstate == IOS_goodbit) || self->signature == VBC_ObjectSignature);
     __CPROVER_assume(is->g >= g0 && is->g <= is->fileSize && is->p <= is->g);
+    __CPROVER_assume(is->rdstate == IOS_goodbit || is->g == is->fileSize);    /* a cut-short header read has consumed the stream to its declared end (C09) */
+    if (is->rdstate != IOS_goodbit) is->hdr_end = 1;    /* ghost: the header read was cut short */
 }
 #endif
